@@ -173,7 +173,7 @@ TEMPS = [f"TEMP{i}" for i in range(14)]
 TMASK = 0xFFFFFF
 
 
-def _scratch_judge(hist, rs_out, vb: VB) -> Tuple:
+def _scratch_judge(hist, rs_out, vb: VB, shard=None) -> Tuple:
     want_t = {t: 0 for t in TEMPS}
     ref = RefRegs()
     for tgt, v in hist:
@@ -183,7 +183,8 @@ def _scratch_judge(hist, rs_out, vb: VB) -> Tuple:
             ref.set(tgt, v)
     want = ref.readall()
     last = hist[-1][0] if hist else "-"
-    wit = lambda: {"scratch": True, "history": [[t, v] for t, v in hist]}  # noqa: E731
+    # the shard (every history judged before this one in the same process) is part of the witness: snapshots share module state
+    wit = lambda: {"scratch": True, "history": [[t, v] for t, v in hist], **({"shard": shard} if shard else {})}  # noqa: E731
     try:
         regs = Registers()
         for tgt, v in hist:
@@ -252,7 +253,7 @@ def _scratch_shard(args):
             part = hists[i:i + 2000]
             outs = h.batch([_scratch_script(x) for x in part])
             for hist, o in zip(part, outs):
-                outcomes.add(_scratch_judge(hist, o, vb))
+                outcomes.add(_scratch_judge(hist, o, vb, {"firsts": [list(x) for x in firsts], "events": [list(x) for x in events], "depth": depth}))
                 n += 1
     return {"n": n, "vb": vb, "outcomes": len(outcomes)}
 
@@ -318,6 +319,15 @@ def replay(ctx, w) -> Optional[str]:
     hist = tuple((t, v) for t, v in w["history"])
     vb = VB()
     if w.get("scratch"):
+        if w.get("shard"):       # first in the order it was seen in (earlier snapshots of the same process), then alone
+            sh = w["shard"]
+            r = _scratch_shard(([tuple(x) for x in sh["firsts"]], [tuple(x) for x in sh["events"]], sh["depth"]))
+            for sig, (cnt, wl) in r["vb"].d.items():
+                for what, wt in wl:
+                    if (wt() if callable(wt) else wt).get("history") == w["history"]:
+                        return "[after the earlier histories of its shard] " + what
+            for sig, (cnt, wl) in r["vb"].d.items():
+                return "[after the earlier histories of its shard] " + wl[0][0]
         _scratch_judge(hist, rb.harness().call(_scratch_script(hist)), vb)
         for sig, (cnt, wl) in vb.d.items():
             return wl[0][0]
